@@ -8,6 +8,9 @@ import os
 import sys
 
 
+STASH = []
+
+
 def derive(exe, tag, out, contents):
     h = hashlib.sha256()
     h.update(repr((os.path.basename(exe), tag, os.path.basename(out))).encode())
@@ -91,6 +94,15 @@ def run_actions(exe, actions):
         elif op == "write_partial":
             with open(action[1], "wb") as fh:
                 fh.write(b"PARTIAL")
+        elif op == "stash":
+            try:
+                with open(action[1], "rb") as fh:
+                    STASH.append(fh.read())
+            except OSError:
+                STASH.append(b"<absent>")
+        elif op == "write_stash":
+            with open(action[1], "wb") as fh:
+                fh.write(derive(exe, "stash", action[1], STASH))
         elif op == "mkdir":
             os.makedirs(action[1], exist_ok=True)
         elif op == "exit":
